@@ -438,6 +438,24 @@ class LazyGen:
         self._resume.acquire()
         if self.closing:
             raise _GenClose()
+        thrown = self.__dict__.pop("thrown", None)
+        if thrown is not None:
+            raise thrown  # gen.throw(exc): the exception appears at the yield
+
+    def throw(self, exc):
+        """raise `exc` inside the suspended body (at its yield) and run it on -> the next yielded value; StopIteration when it ends"""
+        if not self.started or self.finished:
+            raise exc
+        self.thrown = exc
+        return self.__next__()
+
+
+class CtxManager:
+    """what calling a @contextmanager function of the repository gives (scenarios with `lazy_generators`): entering runs the body up
+    to its yield, leaving runs the rest - with the exception thrown in at the yield when the block raised"""
+
+    def __init__(self, gen: LazyGen, name: str):
+        self.gen, self.name = gen, name
 
     def close(self):
         if self.started and not self.finished:
@@ -539,6 +557,8 @@ class Interp:
                 kinds[id(fn)] = gk
             if getattr(self.sc, "lazy_generators", False) and not gk[2] and gk[1]:
                 return LazyGen(self, m, fn, env, self_obj)  # calling a generator function runs nothing of it yet
+            if getattr(self.sc, "lazy_generators", False) and gk[2] and gk[1]:
+                return CtxManager(LazyGen(self, m, fn, env, self_obj), fn.name)
             produces = gk[0] and not gk[2]
             if produces:
                 env["__yielded__"] = []
@@ -827,6 +847,32 @@ class Interp:
         tgt = self._ctx_function(it.context_expr, env, m)
         if tgt is None:
             v = self.eval(it.context_expr, env, m)
+            if isinstance(v, CtxManager):
+                try:
+                    entered = next(v.gen)
+                except StopIteration:
+                    raise EvalRaise("RuntimeError", "generator didn't yield")
+                if it.optional_vars is not None:
+                    self.assign(it.optional_vars, entered, env, m)
+                try:
+                    self._with(st, k + 1, env, m)
+                except EvalRaise as ex_:
+                    try:
+                        v.gen.throw(ex_)
+                    except StopIteration:
+                        return  # the generator handled the exception and ended: it is suppressed
+                    raise EvalRaise("RuntimeError", "generator didn't stop after throw()")
+                except (_Return, _Break, _Continue):
+                    try:
+                        next(v.gen)
+                    except StopIteration:
+                        pass
+                    raise
+                try:
+                    next(v.gen)
+                except StopIteration:
+                    return
+                raise EvalRaise("RuntimeError", "generator didn't stop")
             if isinstance(v, Obj) and v.cls is not None and getattr(self.sc, "real_objects", False) and self.repo.lookup(v.cls, "__enter__") is not None \
                     and self.repo.lookup(v.cls, "__exit__") is not None:
                 # a context manager class of the repository: __enter__, the body, __exit__ (with the exception's details when the body
@@ -1750,6 +1796,10 @@ class Interp:
             return False
         if isinstance(t, tuple) and t[0] == "external":
             n = t[1].split(".")[-1]
+            if isinstance(o, Obj) and o.cls is not None and n in ("int", "str", "float", "list", "dict", "tuple", "Exception", "object"):
+                # an instance of a class of the repository that derives from the builtin (class BaseFuture(int))
+                if n == "object" or any(isinstance(b_, ast.Name) and b_.id == n for k_ in self.repo.mro(o.cls) for b_ in k_.node.bases):
+                    return True
             if n == "int":
                 return isinstance(o, int)  # as in Python, a bool is an int
             if n == "bool":
